@@ -210,7 +210,7 @@ def edits_of(root, with_recursion=True):
         if is_xsl(e):
             def ns_none(t, id_=e.id):
                 x, _ = find(t, id_)
-                if x is None:
+                if x is None or ':' not in x.name:
                     return False
                 x.name = x.name.split(':', 1)[1]
                 return True
@@ -218,7 +218,7 @@ def edits_of(root, with_recursion=True):
 
             def ns_wrong(t, id_=e.id):
                 x, _ = find(t, id_)
-                if x is None:
+                if x is None or ':' not in x.name:
                     return False
                 x.name = 'w:' + x.name.split(':', 1)[1]
                 if not any(a[0] == 'xmlns:w' for a in t.attrs):
@@ -228,7 +228,7 @@ def edits_of(root, with_recursion=True):
         elif ':' not in nm:
             def ns_xsl(t, id_=e.id):
                 x, _ = find(t, id_)
-                if x is None:
+                if x is None or ':' in x.name:
                     return False
                 x.name = 'xsl:' + x.name
                 return True
@@ -387,7 +387,7 @@ def blocks_xpath(tier):
                 yield xp_case('xpath', "'" + 'x' * ((L - 2) - n * w if w > 1 else 0) + ch * n + "'", site='literal-length')
             yield xp_case('xpath', '1' + ' ' * (L - 1), site='literal-length')
         for bad in (b'\x80', b'\xff', b'\xc3', b"'\xed\xa0\x80'", b"'\xf4\x90\x80\x80'", b"'\xc0\x80'"):
-            yield {'fam': 'xpath', 'k': 'xp', 'expr': bad, 'site': 'invalid-utf8', 'nonseed': True, 'timeout': None}
+            yield {'fam': 'xpath', 'k': 'xp', 'expr': bad, 'site': 'invalid-utf8', 'nonseed': True, 'timeout': None, 'no_agree': True}
     out.append(('xpath', 250, lengths))
     return out
 
@@ -427,8 +427,11 @@ def blocks_stylesheet(tier):
                 if not fn(t):
                     continue
                 x = ser(t)
+                rec = site.endswith(':recurse')
                 for en in entries1:
-                    yield tr_case('stylesheet', x, DOC1, site, en, res=SEED_RES, timeout=120 if site.endswith(':recurse') else None)
+                    if rec and en in ('mixed', 'target'):
+                        continue        # same doTransform as stream / compiled-st; each such case runs until the memory cap
+                    yield tr_case('stylesheet', x, DOC1, site, en, ['o:cap=%d' % RECURSION_CAP_MB] if rec else (), res=SEED_RES, timeout=30 if rec else None)
         for chunk in range(0, len(fast), 40):
             idx = fast[chunk:chunk + 40]
             out.append(('stylesheet', len(idx) * len(entries1), lambda idx=idx, gen=gen: gen(idx)))
@@ -540,3 +543,1052 @@ def blocks_source(tier):
             yield tr_case('source', SRC_XSL, b'\xef\xbb\xbf\xff\xfe<\x00r\x00/\x00>\x00', 'two-boms', en)
     out.append(('source', 600, enc))
     return out
+
+
+# ---------------------------------------------------------------------------------------------
+# family (d): magnitudes and nesting depths
+
+def exact_decimal(fr):
+    """exact decimal expansion (no exponent: XPath has none) of a Fraction whose denominator is 2^m * 5^n"""
+    neg = fr < 0
+    fr = abs(fr)
+    ip = fr.numerator // fr.denominator
+    rem = fr - ip
+    if rem == 0:
+        s = str(ip)
+    else:
+        d = rem.denominator
+        m = 0
+        while d % 10 == 0:
+            d //= 10
+            m += 1
+        a = b = 0
+        while d % 2 == 0:
+            d //= 2
+            a += 1
+        while d % 5 == 0:
+            d //= 5
+            b += 1
+        assert d == 1
+        k = m + max(a, b)
+        digits = rem.numerator * (10 ** k // rem.denominator)
+        s = '%d.%s' % (ip, str(digits).zfill(k).rstrip('0'))
+    return ('-' if neg else '') + s
+
+
+def neighbours(x):
+    bits = struct.unpack('>Q', struct.pack('>d', x))[0]
+    out = []
+    for b in (bits - 1, bits + 1):
+        if 0 < b < 0x7ff0000000000000:
+            out.append(struct.unpack('>d', struct.pack('>Q', b))[0])
+    return out
+
+
+def magnitude_numbers(tier):
+    """(label, literal) pairs"""
+    thorough = tier == 'thorough'
+    out = []
+    for k in range(-330, 311, 1 if thorough else 10):
+        fr = Fraction(10) ** k
+        out.append(('10^%d' % k, exact_decimal(fr)))
+        out.append(('-10^%d' % k, exact_decimal(-fr)))
+    for k in range(-1080, 1031, 1 if thorough else 16):
+        fr = Fraction(2) ** k
+        vals = [('2^%d' % k, fr)]
+        if 0 <= k <= 64:
+            vals += [('2^%d-1' % k, fr - 1), ('2^%d+1' % k, fr + 1)]
+        elif -1074 <= k <= 1023:
+            vals += [('2^%d%s' % (k, '-ulp' if y < 2.0 ** k else '+ulp'), Fraction(y)) for y in neighbours(2.0 ** k)]
+        for lab, v in vals:
+            out.append((lab, exact_decimal(v)))
+            out.append(('-(' + lab + ')', exact_decimal(-v)))
+    for lab, lit in (('0', '0'), ('-0', '-0'), ('nan', '(0 div 0)'), ('inf', '(1 div 0)'), ('-inf', '(-1 div 0)'), ('0.5', '0.5'), ('-0.5', '-0.5'),
+                     ('max', exact_decimal(Fraction(1.7976931348623157e308))), ('min-denormal', exact_decimal(Fraction(5e-324)))):
+        out.append((lab, lit))
+    return out
+
+
+NUM_CONSTRUCTS = [
+    ('value-of', '<xsl:value-of select="N"/>'),
+    ('avt', '<e a="{N}"/>'),
+    ('string-length', '<xsl:value-of select="string-length(string(N))"/>'),
+    ('number(string)', '<xsl:value-of select="number(string(N)) = N"/>'),
+    ('xsl:number-1', '<xsl:number value="N"/>'),
+    ('xsl:number-a', '<xsl:number value="N" format="a"/>'),
+    ('xsl:number-I', '<xsl:number value="N" format="I"/>'),
+    ('xsl:number-i', '<xsl:number value="N" format="i"/>'),
+    ('xsl:number-001', '<xsl:number value="N" format="001"/>'),
+    ('xsl:number-group', '<xsl:number value="N" format="1" grouping-separator="," grouping-size="3"/>'),
+    ('xsl:number-greek', '<xsl:number value="N" format="&#x3b1;"/>'),
+    ('xsl:number-traditional', '<xsl:number value="N" format="&#x10d0;" letter-value="traditional"/>'),
+    ('format-number(#)', '<xsl:value-of select="format-number(N,\'#\')"/>'),
+    ('format-number(0.0#)', '<xsl:value-of select="format-number(N,\'0.0#\')"/>'),
+    ('format-number(#,##0.00)', '<xsl:value-of select="format-number(N,\'#,##0.00\')"/>'),
+    ('format-number(pad40)', '<xsl:value-of select="format-number(N,\'%s.0\')"/>' % ('0' * 40)),
+    ('format-number(#%)', '<xsl:value-of select="format-number(N,\'#%\')"/>'),
+    ('format-number(permille)', '<xsl:value-of select="format-number(N,\'#&#8240;\')"/>'),
+    ('format-number(frac40)', '<xsl:value-of select="format-number(N,\'#.%s\')"/>' % ('#' * 40)),
+    ('format-number(neg)', '<xsl:value-of select="format-number(N,\'#;(#)\')"/>'),
+    ('format-number(named)', '<xsl:value-of select="format-number(N,\'#.##0,0\',\'d\')"/>'),
+    ('substring(s,N)', '<xsl:value-of select="substring(\'abcdef\',N)"/>'),
+    ('substring(s,2,N)', '<xsl:value-of select="substring(\'abcdef\',2,N)"/>'),
+    ('substring(s,0-N,N)', '<xsl:value-of select="substring(\'abcdef\',0 - N,N)"/>'),
+    ('predicate(N)', '<xsl:value-of select="count((//i)[N])"/>'),
+    ('predicate(position()<N)', '<xsl:value-of select="count(//i[position() &lt; N])"/>'),
+    ('step[N]', '<xsl:value-of select="count(//i[N])"/>'),
+    ('round', '<xsl:value-of select="round(N)"/>'),
+    ('floor', '<xsl:value-of select="floor(N)"/>'),
+    ('ceiling', '<xsl:value-of select="ceiling(N)"/>'),
+    ('mod', '<xsl:value-of select="N mod 7"/>'),
+    ('div', '<xsl:value-of select="1 div N"/>'),
+    ('mul', '<xsl:value-of select="N * N"/>'),
+    ('compare', '<xsl:value-of select="N &gt; 1 and N = N"/>'),
+    ('sum', '<xsl:value-of select="sum(//i/@n) + N"/>'),
+    ('sort', '<xsl:for-each select="//i"><xsl:sort select="@n * N" data-type="number"/><xsl:value-of select="@n"/></xsl:for-each>'),
+    ('param-number', '<xsl:value-of select="$p"/><xsl:value-of select="format-number($p,\'#.#\')"/><xsl:number value="$p"/>'),
+]
+MAG_HEAD = ('<xsl:output omit-xml-declaration="yes"/><xsl:decimal-format name="d" decimal-separator="," grouping-separator="."/>'
+            '<xsl:param name="p" select="0"/><xsl:template match="/"><o>')
+MAG_TAIL = '</o></xsl:template>'
+
+
+def mag_xsl(constructs, lit):
+    return S(MAG_HEAD + ''.join('<c>%s</c>' % frag.replace('N', lit) for lab, frag in constructs) + MAG_TAIL)
+
+
+def strtod_text(lit):
+    # the decimal handed to strtod for the number-parameter entry point (n: option); expressions fall back to 1
+    return lit if re.match(r'^-?[0-9.]+$', lit) else '1'
+
+
+def blocks_magnitude(tier):
+    thorough = tier == 'thorough'
+    out = []
+    nums = magnitude_numbers(tier)
+    for lo in range(0, len(nums), 16):
+        def gen(lo=lo):
+            for lab, lit in nums[lo:lo + 16]:
+                popt = [B('n:p=' + strtod_text(lit))]
+                parts = [tr_case('magnitude', mag_xsl([c], lit), DOC1, c[0], 'stream', popt, timeout=1) for c in NUM_CONSTRUCTS]
+                c = tr_case('magnitude', mag_xsl(NUM_CONSTRUCTS, lit), DOC1, 'number:' + lab, 'stream', popt, parts=parts, timeout=1)
+                c['combine'] = lambda idx, lit=lit: B(mag_xsl([NUM_CONSTRUCTS[i] for i in idx], lit))
+                c['label'] = lab
+                yield c
+        out.append(('magnitude', 16, gen))
+
+    # strings of 2^m characters built by repeated concatenation
+    STR_CONSTRUCTS = [
+        ('string-length', '<xsl:value-of select="string-length($s)"/>'),
+        ('substring-end', '<xsl:value-of select="substring($s,string-length($s) - 1)"/>'),
+        ('substring-huge', '<xsl:value-of select="substring($s,2,%s)"/>' % ('9' * 30)),
+        ('translate', '<xsl:value-of select="string-length(translate($s,\'a \',\'c\'))"/>'),
+        ('normalize-space', '<xsl:value-of select="string-length(normalize-space($s))"/>'),
+        ('contains', '<xsl:value-of select="contains($s,\'b a\')"/><xsl:value-of select="substring-before($s,\'zz\')"/>'),
+        ('concat', '<xsl:value-of select="string-length(concat($s,$s,$s))"/>'),
+        ('text', '<t><xsl:value-of select="$s"/></t>'),
+        ('attribute', '<t a="{$s}"/>'),
+        ('comment', '<xsl:comment><xsl:value-of select="$s"/></xsl:comment>'),
+        ('pi', '<xsl:processing-instruction name="p"><xsl:value-of select="$s"/></xsl:processing-instruction>'),
+        ('number', '<xsl:value-of select="number($s)"/>'),
+        ('sort-key', '<xsl:for-each select="//i"><xsl:sort select="concat($s,@n)"/><xsl:value-of select="@n"/></xsl:for-each>'),
+        ('element-name', '<xsl:element name="{translate($s,\' \',\'\')}"/>'),
+    ]
+    for m in range(0, (20 if thorough else 16) + 1):
+        def gens(m=m):
+            def xsl(cs):
+                v = ''.join('<xsl:variable name="v%d" select="concat($v%d,$v%d)"/>' % (i, i - 1, i - 1) for i in range(1, m + 1))
+                return S('<xsl:output omit-xml-declaration="yes"/><xsl:template match="/"><xsl:variable name="v0" select="\'a\'"/>' + v +
+                         '<xsl:variable name="s" select="$v%d"/><o>' % m + ''.join(f for l, f in cs) + '</o></xsl:template>')
+            parts = [tr_case('magnitude', xsl([c]), DOC1, 'string:' + c[0], 'stream', timeout=30) for c in STR_CONSTRUCTS]
+            c = tr_case('magnitude', xsl(STR_CONSTRUCTS), DOC1, 'string:2^%d' % m, 'stream', timeout=30, parts=parts)
+            c['combine'] = lambda idx, xsl=xsl: B(xsl([STR_CONSTRUCTS[i] for i in idx]))
+            yield c
+        out.append(('magnitude', 1, gens))
+
+    # nesting depths 2^k
+    kmax = 14 if thorough else 12
+    DEPTH_XSL_PARTS = [
+        ('count', '<xsl:value-of select="count(//a)"/>'),
+        ('ancestors', '<xsl:value-of select="count((//a)[last()]/ancestor::*)"/>'),
+        ('apply-templates', '<xsl:apply-templates/>'),
+        ('copy-of', '<xsl:copy-of select="."/>'),
+        ('string-value', '<xsl:value-of select="string-length(.)"/>'),
+    ]
+
+    def depth_xsl(cs):
+        return S('<xsl:output omit-xml-declaration="yes"/><xsl:template match="/"><o>' + ''.join(f for l, f in cs) +
+                 '</o></xsl:template><xsl:template match="a"><b><xsl:apply-templates/></b></xsl:template>')
+
+    def sel_xsl(expr):
+        return S('<xsl:output omit-xml-declaration="yes"/><xsl:template match="/"><o><xsl:value-of select="%s"/></o></xsl:template>'
+                 % expr.replace('&', '&amp;').replace('<', '&lt;').replace('"', '&quot;'))
+
+    XP_SHAPES = [
+        ('parens', lambda D: '(' * D + '1' + ')' * D),
+        ('predicates-nested', lambda D: 'a' + '[a' * D + ']' * D),
+        ('unary-minus', lambda D: '-' * D + '1'),
+        ('function-nesting', lambda D: 'not(' * D + '1' + ')' * D),
+        ('additions', lambda D: '1' + '+1' * D),
+        ('path-steps', lambda D: 'a' + '/a' * D),
+        ('unions', lambda D: 'a' + '|a' * D),
+        ('predicate-list', lambda D: 'a' + '[1]' * D),
+        ('concat-arguments', lambda D: 'concat(' + ','.join(['1'] * (D + 1)) + ')'),
+        ('and-chain', lambda D: '1' + ' and 1' * D),
+        ('literal-length', lambda D: "'" + 'x' * D + "'"),
+        ('name-length', lambda D: 'a' * D),
+        ('digits', lambda D: '1' * D),
+        ('fraction-digits', lambda D: '0.' + '0' * D + '1'),
+    ]
+    XSL_SHAPES = [
+        ('xsl:if-nesting', lambda D: '<xsl:if test="1">' * D + 'x' + '</xsl:if>' * D),
+        ('lre-nesting', lambda D: '<e>' * D + 'x' + '</e>' * D),
+        ('for-each-nesting', lambda D: '<xsl:for-each select=".">' * D + 'x' + '</xsl:for-each>' * D),
+        ('choose-nesting', lambda D: '<xsl:choose><xsl:when test="1">' * D + 'x' + '</xsl:when></xsl:choose>' * D),
+        ('variable-chain', lambda D: '<xsl:variable name="v0" select="1"/>' + ''.join('<xsl:variable name="v%d" select="$v%d + 1"/>' % (i, i - 1) for i in range(1, D + 1)) +
+         '<xsl:value-of select="$v%d"/>' % D),
+        ('rtf-nesting', lambda D: '<xsl:variable name="v">' + '<e>' * D + 'x' + '</e>' * D + '</xsl:variable><xsl:copy-of select="$v"/>'),
+        ('sibling-instructions', lambda D: '<xsl:value-of select="1"/>' * D),
+        ('lre-attributes', lambda D: '<e ' + ' '.join('a%d="{%d}"' % (i, i) for i in range(D)) + '/>'),
+        ('avt-parts', lambda D: '<e a="' + '{1}x' * D + '"/>'),
+    ]
+    for k in range(0, kmax + 1):
+        D = 2 ** k
+
+        def gd(D=D, k=k):
+            tmo = 30
+            doc = '<a>' * D + 't' + '</a>' * D
+            for en in SRC_ENTRIES:
+                parts = [tr_case('magnitude', depth_xsl([c]), doc, 'source-depth:' + c[0], en, timeout=tmo) for c in DEPTH_XSL_PARTS]
+                yield tr_case('magnitude', depth_xsl(DEPTH_XSL_PARTS), doc, 'source-depth:2^%d' % k, en, timeout=tmo, parts=parts)
+            wide = '<r>' + '<a/>' * D + '</r>'
+            yield tr_case('magnitude', depth_xsl(DEPTH_XSL_PARTS[:1] + DEPTH_XSL_PARTS[2:4]), wide, 'source-width:2^%d' % k, 'stream', timeout=tmo)
+            attrs = '<r ' + ' '.join('a%d="v"' % i for i in range(D)) + '/>'
+            yield tr_case('magnitude', SRC_XSL, attrs, 'source-attributes:2^%d' % k, 'stream', timeout=tmo)
+            yield tr_case('magnitude', SRC_XSL, '<r ' + ' '.join('xmlns:p%d="u%d"' % (i, i) for i in range(min(D, 1024))) + '><a/></r>', 'source-namespaces:2^%d' % k, 'stream', timeout=tmo)
+            yield tr_case('magnitude', SRC_XSL, '<%s/>' % ('n' * D), 'source-name-length:2^%d' % k, 'stream', timeout=tmo)
+            yield tr_case('magnitude', SRC_XSL, '<r a="%s">%s</r>' % ('v' * D, 't' * D), 'source-text-length:2^%d' % k, 'stream', timeout=tmo)
+        out.append(('magnitude', 8, gd))
+
+        def gx(D=D, k=k):
+            for lab, f in XP_SHAPES:
+                e = f(D)
+                yield xp_case('magnitude', e, site='xpath-%s:2^%d' % (lab, k), timeout=30)
+                yield tr_case('magnitude', sel_xsl(e), DOC1, 'select-%s:2^%d' % (lab, k), 'stream', timeout=30)
+        out.append(('magnitude', 2 * len(XP_SHAPES), gx))
+
+        def gs(D=D, k=k):
+            for lab, f in XSL_SHAPES:
+                # compiling nested instructions costs time quadratic in the depth (measured: 0.7 s at 2^10, 11 s at 2^12; xsl:choose 4x that):
+                # only xsl:if goes to the full depth, the other nesting shapes stop two powers earlier
+                nesting = lab.endswith('-nesting')
+                if nesting and k > (kmax - 2 if lab != 'xsl:if-nesting' else kmax) - (0 if thorough else 1):
+                    continue
+                x = S('<xsl:output omit-xml-declaration="yes"/><xsl:template match="/"><o>' + f(D) + '</o></xsl:template>')
+                for en in ('stream', 'compiled-st'):
+                    if nesting and k > kmax - 2 and en != 'stream':
+                        continue
+                    yield tr_case('magnitude', x, DOC1, '%s:2^%d' % (lab, k), en, timeout={13: 200, 14: 800}.get(k, 60) if nesting else 30)
+            # template recursion of depth D (with a base case) by name and by apply-templates
+            rec = S('<xsl:output omit-xml-declaration="yes"/><xsl:template match="/"><o><xsl:call-template name="t"><xsl:with-param name="n" select="%d"/></xsl:call-template></o></xsl:template>'
+                    '<xsl:template name="t"><xsl:param name="n"/><xsl:if test="$n &gt; 0"><xsl:call-template name="t"><xsl:with-param name="n" select="$n - 1"/></xsl:call-template></xsl:if>'
+                    '<xsl:if test="$n = 0">x</xsl:if></xsl:template>' % D)
+            yield tr_case('magnitude', rec, DOC1, 'call-template-recursion:2^%d' % k, 'stream', timeout=30)
+            rec2 = S('<xsl:output omit-xml-declaration="yes"/><xsl:template match="/"><o><xsl:apply-templates select="r"><xsl:with-param name="n" select="%d"/></xsl:apply-templates></o></xsl:template>'
+                     '<xsl:template match="r"><xsl:param name="n"/><e><xsl:if test="$n &gt; 0"><xsl:apply-templates select="."><xsl:with-param name="n" select="$n - 1"/></xsl:apply-templates></xsl:if></e></xsl:template>' % D)
+            yield tr_case('magnitude', rec2, DOC1, 'apply-templates-recursion:2^%d' % k, 'stream', timeout=30)
+            if k <= 8:
+                res = {}
+                for i in range(D):
+                    res['m%d.xsl' % i] = S('<xsl:import href="m%d.xsl"/>' % (i + 1))
+                res['m%d.xsl' % D] = S('<xsl:template match="/"><deep/></xsl:template>')
+                yield tr_case('magnitude', S('<xsl:import href="m0.xsl"/>'), DOC1, 'import-chain:2^%d' % k, 'stream', res=res, timeout=30)
+        out.append(('magnitude', 2 * len(XSL_SHAPES) + 3, gs))
+    return out
+
+
+# ---------------------------------------------------------------------------------------------
+# families (e) parameters, (f) steady state, (g) entry points
+
+PARAM_XSL = S('<xsl:output omit-xml-declaration="yes"/><xsl:param name="p" select="\'d\'"/><xsl:template match="/"><o b="{boolean($p)}"><xsl:value-of select="$p"/>'
+              '<xsl:copy-of select="$p"/><xsl:if test="$p">y</xsl:if></o></xsl:template>')
+
+
+def blocks_param(tier):
+    thorough = tier == 'thorough'
+    toks = tokens30()
+    out = []
+    entries = ['stream', 'capis'] if thorough else ['stream']
+    maxlen = 3 if thorough else 2
+    for n in range(1, maxlen + 1):
+        for prefix in itertools.product(toks, repeat=min(1, n - 1) if n < 3 else 2):
+            def gen(prefix=prefix, n=n):
+                for rest in itertools.product(toks, repeat=n - len(prefix)):
+                    e = ' '.join(prefix + rest)
+                    for en in entries:
+                        yield tr_case('param', PARAM_XSL, DOC1, e, en, [B('p:p=' + e)])
+            out.append(('param', 30 ** (n - len(prefix)) * len(entries), gen))
+
+    def names():
+        for vn, vv in NASTY:
+            if '\t' in vv or '=' in vv:
+                continue
+            for en in entries:
+                yield tr_case('param', PARAM_XSL, DOC1, 'name(%s)' % vn, en, [B('p:%s=1' % vv)])
+                yield tr_case('param', PARAM_XSL, DOC1, 'value(%s)' % vn, en, [B('p:p=%s' % vv)])
+    out.append(('param', 2 * len(NASTY), names))
+    return out
+
+
+OK_XSL = S('<xsl:output omit-xml-declaration="yes"/><xsl:key name="k" match="i" use="@g"/><xsl:template match="/"><o><xsl:value-of select="count(key(\'k\',\'x\'))"/>'
+           '<xsl:for-each select="r/i"><xsl:sort select="@n" data-type="number"/><xsl:number value="@n" format="i"/></xsl:for-each></o></xsl:template>')
+BAD_COMPILE_XSL = S('<xsl:template match="/"><o><xsl:value-of select="count(//*"/></o></xsl:template>')
+BAD_RUNTIME_XSL = S('<xsl:template match="/"><o><xsl:message terminate="yes">stop</xsl:message></o></xsl:template>')
+BAD_RUNTIME2_XSL = S('<xsl:template match="/"><o><xsl:value-of select="$p | 1"/></o></xsl:template><xsl:param name="p" select="1"/>')
+
+
+def blocks_steady(tier):
+    out = []
+    reps = 60
+    classes = [('ok', OK_XSL, DOC1), ('compile-error', BAD_COMPILE_XSL, DOC1), ('parse-error', OK_XSL, '<r><a></r>'),
+               ('runtime-error(message)', BAD_RUNTIME_XSL, DOC1), ('runtime-error(xpath)', BAD_RUNTIME2_XSL, DOC1),
+               ('not-well-formed-stylesheet', '<xsl:stylesheet', DOC1)]
+    for lab, x, d in classes:
+        for en in ['stream', 'compiled-st', 'compiled-xw', 'capis', 'capi']:
+            def gen(lab=lab, x=x, d=d, en=en):
+                c = tr_case('steady', x, d, '%s:%s' % (en, lab), en, nonseed=False)
+                c['reps'] = reps
+                yield c
+            out.append(('steady', 1, gen))
+    for lab, e in [('ok', 'count(//b) + 1'), ('parse-error', 'count(//b'), ('runtime-error', 'a | 1'), ('unknown-function', 'nosuch(1)'), ('unknown-prefix', 'zz:a')]:
+        def genx(lab=lab, e=e):
+            c = xp_case('steady', e, site='xpath:' + lab)
+            c['reps'] = reps
+            c['nonseed'] = False
+            yield c
+        out.append(('steady', 1, genx))
+    return out
+
+
+def blocks_entry(tier):
+    def gen():
+        for en in ['stream', 'target', 'compiled-st', 'compiled-xw', 'mixed', 'pi', 'capi', 'capis']:
+            yield tr_case('entry', OK_XSL, DOC1, en, en, nonseed=False)
+
+    def gen2():
+        # transform(const XSLTInputSource&, const XSLTResultTarget&): the inline overload of XalanTransformer.hpp
+        yield tr_case('entry', OK_XSL, DOC1, 'pi-target', 'pi-target', nonseed=False, timeout=3)
+    return [('entry', 8, gen), ('entry', 1, gen2)]
+
+
+ONLY = [x for x in os.environ.get('C03_ONLY', '').split(',') if x]     # debugging aid: restrict to some families (evidence says so)
+
+
+def all_blocks(tier):
+    b = (blocks_entry(tier) + blocks_steady(tier) + blocks_magnitude(tier) + blocks_stylesheet(tier) + blocks_source(tier) +
+         blocks_param(tier) + blocks_xpath(tier))
+    if ONLY:
+        b = [x for x in b if x[0] in ONLY]
+    return b
+
+
+# ---------------------------------------------------------------------------------------------
+# running cases
+
+ASAN = ('detect_leaks=1:abort_on_error=1:allocator_may_return_null=1:detect_stack_use_after_return=0:symbolize=0:'
+        'hard_rss_limit_mb=1500:max_allocation_size_mb=2048:quarantine_size_mb=16')
+ENV = {'ASAN_OPTIONS': ASAN, 'LSAN_OPTIONS': 'leak_check_at_exit=0:print_suppressions=0', 'UBSAN_OPTIONS': 'print_stacktrace=0:halt_on_error=0'}
+BASE_TIMEOUT = 5          # seconds; vlib re-runs a timed-out request alone with 10x before it counts as a hang
+MM_CAP_MB = 192
+RECURSION_CAP_MB = 16     # the edits that make a template call itself run until the manager refuses: a smaller budget for those
+DRIVER = os.environ.get('C03_DRIVER', 'c03')      # the sensitivity demos point this at a scratch build of the driver
+
+
+class W(vlib.Worker):
+    def stderr_tail(self, n=1 << 19):
+        return vlib.Worker.stderr_tail(self, n)
+
+
+def L1(b):
+    return b.decode('latin-1') if isinstance(b, bytes) else b
+
+
+def case_fields(c, extra=()):
+    if c['k'] == 'xp':
+        return ['xpc', 'd0', c['expr']] + list(extra)
+    return ['trx', c['xsl'], c['xml']] + list(c['opts']) + list(extra)
+
+
+def case_size(c):
+    if c['k'] == 'xp':
+        return len(c['expr'])
+    return len(c['xsl']) + len(c['xml']) + sum(len(o) for o in c['opts'])
+
+
+def case_json(c):
+    if c['k'] == 'xp':
+        return {'k': 'xp', 'fam': c['fam'], 'site': c['site'], 'expr': L1(B(c['expr'])), 'doc': XP_DOC}
+    return {'k': 'tr', 'fam': c['fam'], 'site': c['site'], 'xsl': L1(c['xsl']), 'xml': L1(c['xml']), 'opts': [L1(B(o)) for o in c['opts']]}
+
+
+def case_text(c, limit=300):
+    if c['k'] == 'xp':
+        t = 'xpath: ' + L1(B(c['expr']))
+    else:
+        t = 'stylesheet: %s | source: %s | %s' % (L1(c['xsl']), L1(c['xml']), ' '.join(L1(B(o)) for o in c['opts'] if not L1(B(o)).startswith('r:')))
+    return t if len(t) <= limit else t[:limit] + '...(%d chars)' % len(t)
+
+
+FRAME_RE = re.compile(r'^\s*#(\d+) 0x[0-9a-f]+\s+\((\S+?)\+0x([0-9a-f]+)\)', re.M)
+UBSAN_RE = re.compile(r'^(\S+?):(\d+):\d+: runtime error: (.*)$', re.M)
+
+
+def short_fn(fn):
+    fn = fn.replace('xalanc_1_12::', '').replace('xercesc_3_2::', 'xercesc::')
+    # drop template arguments and the parameter list
+    out, depth = [], 0
+    for ch in fn:
+        if ch == '<':
+            depth += 1
+        elif ch == '>':
+            depth -= 1
+        elif depth == 0:
+            out.append(ch)
+    fn = ''.join(out)
+    p = fn.find('(')
+    if p > 0:
+        fn = fn[:p]
+    return fn.split(' ')[-1]
+
+
+class Symbolizer:
+    def __init__(self):
+        self.cache = {}
+        self.lines = {}
+
+    def resolve(self, frames):
+        """frames: list of (module, hexoffset) -> list of (function, file) (innermost inlined frame)"""
+        need = {}
+        for m, o in frames:
+            if (m, o) not in self.cache:
+                need.setdefault(m, []).append(o)
+        for m, offs in need.items():
+            try:
+                import subprocess
+                p = subprocess.run(['llvm-symbolizer', '--obj=' + m, '-f', '-C'] + ['0x' + o for o in offs], stdout=subprocess.PIPE,
+                                   stderr=subprocess.DEVNULL, timeout=300)
+                blocks = p.stdout.decode('utf-8', 'replace').strip('\n').split('\n\n')
+            except Exception:
+                blocks = []
+            for i, o in enumerate(offs):
+                fn, fl, ln = '?', '?', '?'
+                if i < len(blocks):
+                    ls = blocks[i].split('\n')
+                    if len(ls) >= 2:
+                        fn = ls[0]
+                        fl, ln = (ls[1].rsplit(':', 2) + ['?'])[:2]
+                self.cache[(m, o)] = (fn, fl)
+                self.lines[(m, o)] = ln
+        return [self.cache[(m, o)] for m, o in frames]
+
+    def pretty(self, text, limit=14):
+        """the first stack of a sanitizer report as 'function file:line' lines"""
+        m = re.search(r'ERROR: AddressSanitizer', text)
+        seg = text[m.start():] if m else text
+        frames, last = [], -1
+        for fm in FRAME_RE.finditer(seg):
+            n = int(fm.group(1))
+            if n <= last:
+                break
+            last = n
+            frames.append((fm.group(2), fm.group(3)))
+        frames = frames[:limit]
+        res = self.resolve(frames)
+        return ['#%d %s %s:%s' % (i, short_fn(fn), fl.replace('/repo/src/xalanc/', ''), self.lines.get(frames[i], '?')) for i, (fn, fl) in enumerate(res)]
+
+
+GENERIC_FILES = ('XalanVector.hpp', 'XalanList.hpp', 'XalanMap.hpp', 'XalanDeque.hpp', 'XalanSet.hpp', 'STLHelper.hpp', 'XalanMemMgrAutoPtr.hpp',
+                 'XalanMemoryManagement.hpp', 'XalanDOMString.hpp', 'XalanDOMString.cpp', 'ArenaBlockBase.hpp', 'ArenaBlock.hpp', 'ArenaAllocator.hpp',
+                 'ReusableArenaBlock.hpp', 'ReusableArenaAllocator.hpp', 'XalanAutoPtr.hpp')
+
+
+def classify_death(text, rc, sym):
+    """-> (outcome kind, site, asan headline) from the stderr of a driver (or forked golden child) that died"""
+    head = ''
+    m = re.search(r'ERROR: AddressSanitizer: ([\w-]+)', text)
+    if m:
+        head = m.group(1)
+    if 'hard rss limit exhausted' in text:
+        kind = 'memory-exhausted'
+    elif head == 'stack-overflow':
+        kind = 'stack-overflow'
+    elif head in ('allocation-size-too-big', 'out-of-memory', 'calloc-overflow'):
+        kind = 'allocation-failure'
+    elif head:
+        kind = 'asan'
+    elif 'terminate called' in text or 'terminating' in text:
+        kind = 'terminate'
+    elif 'LeakSanitizer' in text and not head:
+        kind = 'died(rc=%s)' % rc
+    else:
+        kind = 'died(rc=%s)' % rc
+    site = '?'
+    if m:
+        # the frames of the first stack of the report
+        seg = text[m.start():]
+        frames = []
+        last = -1
+        for fm in FRAME_RE.finditer(seg):
+            n = int(fm.group(1))
+            if n <= last:
+                break
+            last = n
+            frames.append((fm.group(2), fm.group(3)))
+        res = sym.resolve(frames[:256])
+        lib = [(short_fn(fn), os.path.basename(fl)) for fn, fl in res if fl.startswith('/repo/src/xalanc')]
+        if lib:
+            if kind == 'stack-overflow':
+                # the recursion cycle: the alphabetically first function among those that repeat
+                cnt = {}
+                for x in lib:
+                    cnt[x] = cnt.get(x, 0) + 1
+                rep = sorted(x for x, n in cnt.items() if n >= 4) or sorted(cnt)
+                site = '%s:%s' % (rep[0][1], rep[0][0])
+            else:
+                site = '%s:%s' % (lib[0][1], lib[0][0])
+                # a frame of a generic container says little: add the first caller outside the containers
+                if lib[0][1] in GENERIC_FILES:
+                    for fn, fl in lib[1:]:
+                        if fl not in GENERIC_FILES:
+                            site += '<-%s:%s' % (fl, fn)
+                            break
+        elif res:
+            site = 'outside-library:' + short_fn(res[0][0])
+    pm = re.findall(r'^c03-phase: (\w+)(?: after=(\S+))?', text, re.M)
+    phase = (pm[-1][0] + ('/' + pm[-1][1] if pm[-1][1] else '')) if pm else '?'
+    return kind, site, head, phase
+
+
+def parse_reply(r):
+    d = {}
+    for f in r:
+        k, _, v = f.partition('=')
+        d[k] = v
+    return d
+
+
+class Shard:
+    def __init__(self, shard, tier):
+        self.shard, self.tier = shard, tier
+        self.dir = os.path.join(vlib.BUILD, 'tmp', 'c03.files.%d' % shard)
+        os.makedirs(self.dir, exist_ok=True)
+        self.sym = Symbolizer()
+        self.forkgold = set()     # failure kinds after which the golden step runs in a forked child (see harness/c03.cpp)
+        self.counts = {'evaluations': 0, 'cases': 0, 'nontrivial': 0, 'fatal': 0, 'restarts': 0, 'leak_screens': 0, 'forkgold_cases': 0, 'suspended_construct_evaluations': 0,
+                       'retained_bytes_long_lived': 0}
+        self.fam = {}
+        self.outcomes = {}
+        self.viols = {}
+        self.samples = {}
+        self.ubsan_seen = set()
+        self.suspended = set()
+        self.slow = []
+        self.err_off = 0
+        self.w = W(DRIVER, args=[self.dir, str(MM_CAP_MB)], env=ENV, stderr_path=os.path.join(vlib.BUILD, 'tmp', 'c03.%d.err' % shard), timeout=BASE_TIMEOUT)
+        self.w.on_restart = self.reload
+        self.reload(self.w)
+
+    # ----- driver state
+    def reload(self, w):
+        self.err_off = 0
+        self.ubsan_seen = set()
+        self.counts['restarts'] += 1
+        saved = w.timeout
+        w.timeout = 120        # start-up of the instrumented driver on a loaded machine, not a case
+        try:
+            for attempt in range(3):
+                try:
+                    r = w._request(['doc', 'd0', XP_DOC])
+                    assert r[0] == 'ok', r
+                    for k in sorted(self.forkgold):
+                        w._request(['mode', 'forkgold', k])
+                    break
+                except vlib.WorkerDied:
+                    if attempt == 2:
+                        raise
+        finally:
+            w.timeout = saved
+
+    def restart(self):
+        self.w.start()
+        self.reload(self.w)
+
+    def new_stderr(self):
+        try:
+            self.w.errf.flush()
+            with open(self.w.stderr_path, 'rb') as f:
+                f.seek(0, 2)
+                sz = f.tell()
+                if sz < self.err_off:
+                    self.err_off = 0
+                f.seek(self.err_off)
+                data = f.read()
+                self.err_off = sz
+                return data.decode('utf-8', 'replace')
+        except Exception:
+            return ''
+
+    # ----- verdict bookkeeping
+    def add(self, c, kind, site, info):
+        sig = '%s|%s|%s' % (c['fam'], kind, site)
+        v = self.viols.get(sig)
+        size = case_size(c)
+        if v is None or size < v['size']:
+            det = {'case': case_json(c), 'case_text': case_text(c, 600), 'info': info, 'raw_cases': (v['n'] if v else 0)}
+            self.viols[sig] = v = {'n': v['n'] if v else 0, 'size': size, 'detail': det}
+        v['n'] += 1
+        v['detail']['raw_cases'] = v['n']
+
+    def ubsan_from(self, c, text):
+        out = []
+        for m in UBSAN_RE.finditer(text):
+            key = '%s:%s' % (os.path.basename(m.group(1)), m.group(2))
+            if key in self.ubsan_seen:
+                continue
+            self.ubsan_seen.add(key)
+            if not m.group(1).startswith('/repo/src/xalanc'):
+                key = 'outside-library:' + key
+            out.append(('ubsan', key, {'report': m.group(0)[:400]}))
+        return out
+
+    # ----- one request
+    def attempt(self, c, extra=()):
+        """-> ('reply', dict, new stderr) | ('dead', kind, site, info)"""
+        fields = case_fields(c, extra)
+        self.w.timeout = c.get('timeout') or BASE_TIMEOUT
+        self.counts['evaluations'] += 1
+        t_req = time.time()
+        try:
+            r = self.w.request(*fields)
+            dt = time.time() - t_req
+            if dt > 1.0:
+                self.slow.append((round(dt, 1), '%s|%s' % (c['fam'], c['site'])))
+                self.slow = sorted(self.slow, reverse=True)[:8]
+            return ('reply', parse_reply(r), self.new_stderr())
+        except vlib.WorkerDied as wd:
+            first = wd
+        # the driver has been restarted by vlib; a timeout has already been re-run alone with a 10x limit
+        self.reload(self.w)
+        if first.rc == 'timeout':
+            return ('dead', 'hang', c['site'], {'limit_s': self.w.timeout, 'retried_alone_with': '10x'}, first.stderr_tail)
+        # a crash: re-run once alone in the fresh driver before reporting
+        self.counts['evaluations'] += 1
+        try:
+            saved = self.w.on_restart
+            r = self.w.request(*fields)
+            kind, site, head, phase = classify_death(first.stderr_tail, first.rc, self.sym)
+            return ('dead', 'unreproduced-' + kind, site, {'first_death': first.stderr_tail[-3000:], 'asan': head, 'phase': phase,
+                                                          'second_run_reply': r[:12]}, first.stderr_tail)
+        except vlib.WorkerDied as wd2:
+            self.reload(self.w)
+            if wd2.rc == 'timeout':
+                return ('dead', 'hang', c['site'], {'limit_s': self.w.timeout, 'note': 'crashed first, then hung'}, wd2.stderr_tail)
+            kind, site, head, phase = classify_death(wd2.stderr_tail, wd2.rc, self.sym)
+            if site == '?':
+                site = c['site']        # no stack in the report (memory limit, plain abort): the edit is the best site there is
+            tail = wd2.stderr_tail
+            rep = tail[tail.find('ERROR: AddressSanitizer'):][:2500] if 'ERROR: AddressSanitizer' in tail else tail[-2500:]
+            if phase.startswith('golden/') and phase[7:] not in self.forkgold and phase[7:] != '-':
+                # a crash in the golden step after a failed request: from now on this shard runs the golden step that follows
+                # a failure of the same kind in a forked child
+                self.forkgold.add(phase[7:])
+                self.w._request(['mode', 'forkgold', phase[7:]])
+            return ('dead', kind, site, {'rc': wd2.rc, 'asan': head, 'phase': phase, 'stack': self.sym.pretty(tail), 'report': rep[:1200]}, tail)
+
+    def judge(self, c, res):
+        """-> list of (kind, site, info)"""
+        out = []
+        if res[0] == 'dead':
+            _, kind, site, info, tail = res
+            self.counts['fatal'] += 1
+            self.outcomes['fatal:' + kind] = self.outcomes.get('fatal:' + kind, 0) + 1
+            out.append((kind, site, info))
+            # UBSan lines printed before the death belong to this case too
+            self.ubsan_seen = set()
+            out += self.ubsan_from(c, tail)
+            self.ubsan_seen = set()
+            return out, None
+        _, r, err = res
+        out += self.ubsan_from(c, err)
+        site = c['site']
+        poisoned = False
+        if 'e' in r and len(r) <= 2 and 'rc' not in r and 'cpp' not in r:
+            out.append(('harness-error', site, {'reply': str(r)[:300]}))
+            return out, r
+        if r.get('recreated') == '1':
+            self.counts['forkgold_cases'] += 1
+        gold = r.get('gold', '?')
+        if gold.startswith('died'):
+            kind, dsite, head, phase = classify_death(err, gold, self.sym)
+            a = err.find('ERROR: AddressSanitizer')
+            out.append((kind, dsite, {'asan': head, 'phase': 'golden (forked child)', 'stack': self.sym.pretty(err), 'report': err[a:a + 1200] if a >= 0 else err[-1200:], 'reply': dict(r)}))
+            self.counts['fatal'] += 1
+            self.outcomes['fatal:' + kind] = self.outcomes.get('fatal:' + kind, 0) + 1
+        elif gold != 'ok':
+            out.append(('golden-broken', site, {'gold': gold, 'reply': dict(r)}))
+            poisoned = True
+        if c['k'] == 'tr':
+            rc = int(r['rc'])
+            exc = r['exc']
+            key = 'ok' if rc == 0 else ('exception:' + exc if exc != '-' else 'error rc=%d' % rc)
+            self.outcomes[key] = self.outcomes.get(key, 0) + 1
+            if exc.startswith('harness:'):
+                out.append(('harness-error', site, {'reply': dict(r)}))
+            elif exc != '-':
+                # the root cause is the exception type and where it left the library; the edit is in the detail
+                out.append(('exception-escaped:' + exc, '%s:%s' % (c.get('entry', '?'), r.get('stage', '?')), {'edit': site, 'reply': dict(r)}))
+                poisoned = True
+            else:
+                if int(r['okerr']) > 0:
+                    out.append(('rc0-but-error', site, {'reply': dict(r)}))
+                if rc != 0 and int(r['err']) == 0:
+                    out.append(('rc-nonzero-without-message', site, {'reply': dict(r)}))
+            if r.get('recreated') != '1' and not poisoned and not out:
+                m0, m1 = [int(x) for x in r['mm'].split(',')]
+                h0, h1 = [int(x) for x in r['heap'].split(',')]
+                self.counts['retained_bytes_long_lived'] += max(0, m1 - m0)
+                if m1 > m0 or h1 > h0:
+                    # screen positive: the long-lived transformer holds more than before. Lost memory is what stays after a
+                    # transformer made for the request has been destroyed (second run: caches of the process are warm)
+                    self.counts['leak_screens'] += 1
+                    last = None
+                    for _ in range(2):
+                        res2 = self.attempt(c, ['o:fresh=1'])
+                        if res2[0] != 'reply':
+                            last = None
+                            break
+                        last = res2[1]
+                    if last is not None and 'mm' in last:
+                        fm0, fm1 = [int(x) for x in last['mm'].split(',')]
+                        fh0, fh1 = [int(x) for x in last['heap'].split(',')]
+                        if fm1 > fm0 or fh1 > fh0:
+                            lsan = self.lsan_sites()
+                            out.append(('leak', lsan[0] if lsan else site, {'manager_bytes_lost': fm1 - fm0, 'heap_bytes_lost': fh1 - fh0, 'lsan': lsan, 'reply': last}))
+        else:
+            cpp = r.get('cpp', '?')
+            crc, erc, cres = [int(x) for x in r['capi'].split(',')]
+            fr = r['fresh'].split(',')
+            key = 'xpath ' + ('value' if cpp == 'ok' else 'error' if cpp == 'err' else cpp)
+            self.outcomes[key] = self.outcomes.get(key, 0) + 1
+            if cpp.startswith('exc:'):
+                out.append(('exception-escaped:' + cpp[4:], site, {'reply': dict(r)}))
+                poisoned = True
+            elif cpp == 'err' and int(r['msglen']) == 0:
+                out.append(('error-without-message', site, {'reply': dict(r)}))
+            capi_ok = crc == 0 and erc == 0
+            if c.get('no_agree'):
+                pass        # bytes that are not UTF-8 reach only the C API unchanged; the C++ entry point takes UTF-16
+            elif (cpp == 'ok') != capi_ok:
+                out.append(('c-api-disagrees(%s)' % ('cpp-value,capi-error' if cpp == 'ok' else 'cpp-error,capi-success'), site, {'reply': dict(r)}))
+            elif cpp == 'ok' and str(cres) != r['bool']:
+                out.append(('c-api-boolean-differs', site, {'reply': dict(r)}))
+            if fr[0] != cpp or fr[1] != r['bool'] or (fr[0] == 'ok' and fr[2] != r['hash']):
+                out.append(('fresh-evaluator-differs', site, {'reply': dict(r)}))
+            if not c.get('no_agree') and ((int(fr[3]) == 0) != capi_ok or (capi_ok and fr[4] != str(cres))):
+                out.append(('c-api-one-shot-differs', site, {'reply': dict(r)}))
+            if r.get('recreated') != '1':
+                m0, m1 = [int(x) for x in r['mm'].split(',')]
+                self.counts['retained_bytes_long_lived'] += max(0, m1 - m0)
+            if int(r['fmm']) != 0:
+                out.append(('leak', site, {'manager_bytes_lost': int(r['fmm']), 'reply': dict(r)}))
+            elif int(r['fheap']) > 0:
+                self.counts['leak_screens'] += 1
+                res2 = self.attempt(c)
+                if res2[0] == 'reply' and int(res2[1].get('fheap', 0)) > 0:
+                    lsan = self.lsan_sites()
+                    out.append(('leak', lsan[0] if lsan else site, {'heap_bytes_lost': int(res2[1]['fheap']), 'lsan': lsan, 'reply': res2[1]}))
+        if poisoned:
+            # later cases must not inherit a transformer that is already known to be broken
+            self.restart()
+        return out, r
+
+    def lsan_sites(self):
+        """runs LeakSanitizer now; -> sites (top in-library frame) of the leaks it reports"""
+        try:
+            self.new_stderr()
+            self.w._request(['lsan'])
+            text = self.new_stderr()
+        except vlib.WorkerDied:
+            self.reload(self.w)
+            return []
+        sites = []
+        for blk in re.split(r'\n(?=(?:Direct|Indirect) leak of )', text):
+            if not blk.startswith(('Direct leak', 'Indirect leak')):
+                continue
+            frames = [(m.group(2), m.group(3)) for m in FRAME_RE.finditer(blk)]
+            res = self.sym.resolve(frames[:40])
+            lib = [(short_fn(fn), os.path.basename(fl)) for fn, fl in res if fl.startswith('/repo/src/xalanc')]
+            s = '%s:%s' % (lib[0][1], lib[0][0]) if lib else ('outside-library:' + short_fn(res[1][0] if len(res) > 1 else '?'))
+            if s not in sites:
+                sites.append(s)
+        return sites
+
+    def run_case(self, c):
+        self.counts['cases'] += 1
+        self.fam[c['fam']] = self.fam.get(c['fam'], 0) + 1
+        if 'reps' in c:
+            return self.run_steady(c)
+        if c.get('parts') and c.get('combine') and self.suspended:
+            # constructs that already hung in this shard are left out (reported in the evidence as suspended evaluations)
+            idx = [i for i, p in enumerate(c['parts']) if p['site'] not in self.suspended]
+            if len(idx) < len(c['parts']):
+                self.counts['suspended_construct_evaluations'] += len(c['parts']) - len(idx)
+                c = dict(c)
+                c['xsl'] = c['combine'](idx)
+                c['parts'] = [c['parts'][i] for i in idx]
+        res = self.attempt(c)
+        verdicts, r = self.judge(c, res)
+        reached = res[0] == 'dead' or int((r or {}).get('allocs', '0') or 0) > 0
+        if c['nonseed'] and reached:
+            self.counts['nontrivial'] += 1
+        if verdicts and c.get('parts'):
+            # localise: the same request, one construct at a time
+            found = []
+            for p in c['parts']:
+                p = dict(p)
+                p['site'] = '%s' % p['site']
+                res2 = self.attempt(p)
+                v2 = self.judge(p, res2)[0]
+                found += [(p, v) for v in v2]
+                if any(v[0] == 'hang' for v in v2) and c.get('combine'):
+                    self.suspended.add(p['site'])
+            if found:
+                for p, (kind, site, info) in found:
+                    self.add(p, kind, site, info)
+                return
+        for kind, site, info in verdicts:
+            self.add(c, kind, site, info)
+
+    def run_steady(self, c):
+        """identical request repeated on the long-lived objects: outstanding memory must stop growing"""
+        if self.forkgold:
+            self.w._request(['mode', 'forkgold', 'none'])
+        series_m, series_h = [], []
+        try:
+            # chunks of c['reps'] repetitions, at most four: steady = a chunk whose second half grows in fewer than half of its
+            # repetitions (a cache that saturates stops growing; a block retained per call never does)
+            total = 0
+            for chunk in range(4):
+                for i in range(c['reps']):
+                    res = self.attempt(c)
+                    if res[0] == 'dead':
+                        for kind, site, info in self.judge(c, res)[0]:
+                            self.add(c, kind, site, info)
+                        return
+                    r = res[1]
+                    if total == 0:
+                        v, _ = self.judge(c, res)
+                        for kind, site, info in v:
+                            if kind != 'leak':
+                                self.add(c, kind, site, info)
+                        if any(k.startswith(('golden-broken', 'exception-escaped')) for k, s_, i_ in v):
+                            return
+                    total += 1
+                    series_m.append(int(r['mm'].split(',')[1]))
+                    series_h.append(int(r['heap'].split(',')[1]))
+                half = c['reps'] // 2
+                growing = None
+                for name, s in (('manager', series_m), ('heap', series_h)):
+                    tail = s[-half - 1:]
+                    grow = sum(1 for i in range(1, len(tail)) if tail[i] > tail[i - 1])
+                    if grow * 2 >= half:
+                        growing = (name, grow, (tail[-1] - tail[0]) / float(half), s[-5:])
+                        break
+                if growing is None:
+                    return
+            self.add(c, 'unbounded-growth', c['site'], {'measure': growing[0], 'bytes_per_repetition': growing[2], 'repetitions': total,
+                                                       'growing_repetitions_among_the_last_%d' % half: growing[1], 'series_tail': growing[3]})
+        finally:
+            try:
+                for k in sorted(self.forkgold):
+                    self.w._request(['mode', 'forkgold', k])
+            except vlib.WorkerDied:
+                self.reload(self.w)
+
+    def finish(self):
+        """LeakSanitizer over everything this driver instance did, then the final balance of the counting manager"""
+        c = {'fam': 'shard', 'k': 'xp', 'expr': '(end of shard %d)' % self.shard, 'site': 'end-of-shard', 'nonseed': False}
+        try:
+            for s in self.lsan_sites():
+                self.add(c, 'leak(lsan at shard end)', s, {'note': 'reported by __lsan_do_recoverable_leak_check() after the last case of the shard; '
+                                                                   'no per-case balance flagged it'})
+            r = self.w._request(['quit'])
+            d = parse_reply(r)
+            if d.get('mm', '0') != '0':
+                self.add(c, 'leak(final balance)', 'counting-manager', {'bytes_outstanding_after_destroying_everything': d.get('mm')})
+        except Exception as e:
+            pass
+        self.w.close()
+        shutil.rmtree(self.dir, ignore_errors=True)
+
+
+def shard_main(shard, nshards, tier):
+    sh = Shard(shard, tier)
+    try:
+        return shard_body(sh, shard, nshards, tier)
+    except BaseException:
+        # a harness error: leave a trace where it can be read while the other shards still run, and no stray driver
+        import traceback
+        with open(os.path.join(vlib.BUILD, 'tmp', 'c03.%d.exc' % shard), 'w') as f:
+            f.write(traceback.format_exc())
+        try:
+            sh.w.close()
+        except Exception:
+            pass
+        raise
+
+
+def shard_body(sh, shard, nshards, tier):
+    blocks = all_blocks(tier)
+    first = {}
+    lastc = {}
+    mid = {}
+    t0 = time.time()
+    fam_time = {}
+    for bi, (fam, weight, gen) in enumerate(blocks):
+        if bi % nshards != shard:
+            continue
+        tb = time.time()
+        for c in gen():
+            sh.run_case(c)
+            if c['fam'] not in first:
+                first[c['fam']] = case_text(c, 200)
+            lastc[c['fam']] = case_text(c, 200)
+            if sh.fam[c['fam']] % 997 == 1:
+                mid[c['fam']] = case_text(c, 200)
+        fam_time[fam] = fam_time.get(fam, 0) + time.time() - tb
+    sh.finish()
+    return {'counts': sh.counts, 'fam': sh.fam, 'slow': sh.slow, 'suspended': sorted(sh.suspended), 'outcomes': sh.outcomes, 'viols': sh.viols,
+            'samples': {f: [first[f], mid.get(f, first[f]), lastc[f]] for f in first}, 'fam_time': fam_time, 'wall': time.time() - t0}
+
+
+# ---------------------------------------------------------------------------------------------
+
+def replay(path):
+    rec = json.load(open(path))
+    det = rec['detail']
+    cj = det['case']
+    print('signature: %s' % rec.get('signature'))
+    print('case: %s' % det.get('case_text'))
+    d = os.path.join(vlib.BUILD, 'tmp', 'c03.files.replay.%d' % os.getpid())
+    w = W(DRIVER, args=[d, str(MM_CAP_MB)], env=ENV, stderr_path=os.path.join(vlib.BUILD, 'tmp', 'c03.replay.%d.err' % os.getpid()), timeout=300)
+    sym = Symbolizer()
+    try:
+        if cj['k'] == 'xp':
+            w._request(['doc', 'd0', cj.get('doc', XP_DOC)])
+            fields = ['xpc', 'd0', cj['expr'].encode('latin-1')]
+        else:
+            fields = ['trx', cj['xsl'].encode('latin-1'), cj['xml'].encode('latin-1')] + [o.encode('latin-1') for o in cj['opts']] + ['o:full=1']
+        try:
+            r = w._request(fields)
+            for f in r:
+                print('  ' + f[:2000])
+            err = w.stderr_tail()
+            ub = [l for l in err.splitlines() if 'runtime error:' in l]
+            for l in ub:
+                print('  UBSan: ' + l[:300])
+            if 'ERROR: AddressSanitizer' in err:
+                print('  forked golden child died: %s' % (classify_death(err, 0, sym),))
+            bad = bool(ub) or any(f.startswith('gold=') and f != 'gold=ok' for f in r) or any(f.startswith('exc=') and f != 'exc=-' for f in r)
+            print('replay: the driver survived' + (' (see the fields above)' if bad else ''))
+            sys.exit(1 if bad else 0)
+        except vlib.WorkerDied as wd:
+            kind, site, head, phase = classify_death(wd.stderr_tail, wd.rc, sym)
+            a = wd.stderr_tail.find('ERROR: AddressSanitizer')
+            print(wd.stderr_tail[a:a + 600] if a >= 0 else wd.stderr_tail[-3000:])
+            for l in sym.pretty(wd.stderr_tail, 24):
+                print('   ' + l)
+            print('replay: the driver died: rc=%s kind=%s site=%s phase=%s' % (wd.rc, kind, site, phase))
+            sys.exit(1)
+    finally:
+        w.close()
+        shutil.rmtree(d, ignore_errors=True)
+
+
+def main():
+    tier, rp = vlib.tier_from_argv()
+    if rp:
+        return replay(rp)
+    t0 = time.time()
+    res = vlib.run_sharded(shard_main, (tier,))
+    counts = vlib.merge_counts([r['counts'] for r in res])
+    fam = vlib.merge_counts([r['fam'] for r in res])
+    outcomes = vlib.merge_counts([r['outcomes'] for r in res])
+    fam_time = vlib.merge_counts([r['fam_time'] for r in res])
+    merged = {}
+    for r in res:
+        for sig, v in r['viols'].items():
+            m = merged.get(sig)
+            if m is None:
+                merged[sig] = dict(v)
+            else:
+                n = m['n'] + v['n']
+                if v['size'] < m['size']:
+                    merged[sig] = dict(v)
+                merged[sig]['n'] = n
+    viols = []
+    for sig in sorted(merged):
+        v = merged[sig]
+        v['detail']['raw_cases'] = v['n']
+        viols.append(vlib.Violation(sig, v['detail']))
+    samples = []
+    for r in res:
+        for f, s in r['samples'].items():
+            if not any(x.startswith(f + ':') for x in samples):
+                samples += ['%s: %s' % (f, t) for t in s]
+    sizes = {}
+    for f, n, g in all_blocks(tier):
+        sizes[f] = sizes.get(f, 0) + 1
+    cov = {
+        'evaluations': counts['evaluations'],
+        'distinct_nontrivial': counts['nontrivial'],
+        'rule': 'Bounded exhaustive enumeration, nothing sampled. (a) xpath: every token string of length <= %d over the 30-token alphabet of C02 and of '
+                'length <= %d over a 12-token subset, through a long-lived XPathEvaluator, a fresh one, and the XPath C API. (b) stylesheet: 41 seed '
+                'stylesheets covering every XSLT instruction; every variant one edit away (delete an attribute, set it to each of 14 nasty values, delete / '
+                'duplicate / re-parent an element, change its namespace, make a template call itself) at EVERY applicable position%s. (c) source: every '
+                'truncation, single-byte replacement and insertion from {<,>,&,",00,80,FF} of %d seed documents, 17 declared x 10 actual encodings, odd-length '
+                'UTF-16, BOMs; stream, parseSource native and Xerces. (d) magnitude: +-10^k (k=-330..310 step %d), 2^k and neighbours (k=-1080..1030 step %d) '
+                'through 37 number-consuming constructs, strings of 2^m characters (m<=%d), nesting depths 2^k (k<=%d) of source elements, 14 XPath '
+                'shapes, 9 stylesheet shapes, template recursion, import chains. (e) param: token strings of length <= %d as top-level parameter '
+                'expressions. (f) steady: 35 request classes repeated 60 times on the long-lived objects. (g) entry: every public transform overload. '
+                'Oracle per case: driver survives (a death is re-run alone), no ASan report, no new UBSan report, rc==0 xor (rc!=0 and a non-empty '
+                'message), no exception leaves the entry point, the golden transformation on the same transformer is exact afterwards, nothing stays '
+                'allocated after a transformer made for the request is destroyed, wall-clock limit. distinct_nontrivial (measured) = cases whose input '
+                'differs from every seed and for which the library allocated memory (i.e. the bytes reached it).'
+                % ((4, 5, ' and every pair of edits on a 10-stylesheet subset', 8, 1, 1, 20, 14, 3) if tier == 'thorough' else (3, 4, '', 3, 10, 16, 16, 12, 2)),
+        'samples': samples[:24] or ['none'],
+        'cases': counts['cases'], 'families': fam, 'family_cpu_s': {k: round(v, 1) for k, v in fam_time.items()},
+        'outcomes': outcomes, 'distinct_outcomes': len(outcomes),
+        'fatal_outcomes': counts['fatal'], 'driver_restarts': counts['restarts'], 'leak_screen_positives': counts['leak_screens'],
+        'cases_with_forked_golden': counts['forkgold_cases'],
+        'constructs_suspended_after_a_confirmed_hang': sorted(set(x for r in res for x in r['suspended'])),
+        'suspended_construct_evaluations': counts['suspended_construct_evaluations'],
+        'retained_bytes_on_long_lived_objects': counts['retained_bytes_long_lived'],
+        'violating_raw_cases': sum(v['n'] for v in merged.values()),
+        'signatures': {sig: merged[sig]['n'] for sig in sorted(merged)},
+        'shard_wall_s': [round(r['wall'], 1) for r in res],
+        'slowest_requests_s': sorted([tuple(x) for r in res for x in r['slow']], reverse=True)[:12],
+        'exhaustive': not ONLY and counts['suspended_construct_evaluations'] == 0,
+    }
+    if ONLY:
+        cov['restricted_to_families'] = ONLY
+    vlib.finish(PROP, tier, 'exploration', cov, viols, t0,
+                assumptions=['8 MB main-thread stack, ASan-instrumented frames: a stack overflow at depth 2^k here needs a deeper input in an uninstrumented build',
+                             'a MemoryManager that refuses to grow beyond %d MB stands for "up to memory"; ASan hard_rss_limit 1500 MB behind it' % MM_CAP_MB,
+                             'retention that saturates (caches, pools of a long-lived transformer) is not a leak; growth on every repetition of an identical request is',
+                             'the 2-deviation level leaves out the self-recursion edit (each such case runs until the memory cap)'],
+                max_report=80)
+
+
+if __name__ == '__main__':
+    main()
